@@ -95,6 +95,12 @@ def generate(rng, tier):
         P = Prog()
         a = angle_rem(P, rem_class(r), r.choice([0, 0, 0, 1, 2, 3, 5]))
         b = angle_rem(P, rem_class(r), r.choice([0, 1, 2, 3, 7]))
+        if r.chance(0.4):
+            # remainders whose float difference is EXACTLY a threshold of the code (1e-15, 1e-10) or an ulp off it
+            g = fb.nxt(r.choice([1e-15, 1e-15, 1e-10]), r.choice([-1, 0, 0, 0, 1]))
+            lo = r.choice([0.0, 0.0, 1e-15, 2e-15])
+            ra, rb = (lo, lo + g) if r.chance(0.6) else (lo + g, lo)
+            a = angle_rem(P, ra, r.choice([0, 1, 2, 4, 8])); b = angle_rem(P, rb, r.choice([0, 1, 2, 4]))
         for k in [r.choice([0.5, 0.25, 0.1, 0.75, 0.3]), -r.choice([0.5, 1.0, 2.0, 3.0, 0.1]), r.choice([2.0, 3.0, 7.0])]:
             P.add('ADivF', 0, a, P.f(k)); P.add('ADivF', 1, a, P.f(k))
         for sp in range(4):
